@@ -7,7 +7,8 @@ CONSTANTS
   ReserveNs = {0, 5}
   AllocBelow = 1
   AllocAbove = 2
-  ByteSized = FALSE
+  ESize = 8
+  EAlign = 8
   Lifetime = TRUE
 INVARIANTS TypeOK Bounded LastAgrees LifeBalanced
-PROPERTIES MoveHandsOver CopiesWhole NoNewValues KeepsPrefix StorageOnly OtherUntouched SwapExchanges InsertShifts ThrowsIffBeyond
+PROPERTIES MoveHandsOver CopiesWhole NoNewValues KeepsPrefix StorageOnly OtherUntouched SwapExchanges InsertShifts ThrowsIffBeyond TypeLaws
